@@ -6,10 +6,11 @@ observation of the one-subscription scenario (the model allocates all operator s
 from harness import core
 from props import ops1_common as oc
 from props import ops1_ext as ox
+from props import diff_common
 
 META = {
     "technique": "TLC-exported single-subscription observations of Ops1.tla required of every subscriber when the same cold observable object is subscribed twice (overlapping and sequentially)",
-    "level": "The model allocates every piece of operator state in its Sub() step, so its expected observation is per subscription; each element-wise/aggregate scenario is built once on a cold test observable and subscribed twice - overlapping (second subscription 3 ticks after the first) and sequentially - and both subscribers must see an allowed observation of the single-subscription scenario shifted to their own subscription instant, with their own source subscription opened and closed at the expected instants. Sequential operators (concat/catch/repeat/retry/while_do/for_in/on_error_resume_next), sources and callbacks bridges are checked in the same way by their own modules (reported there).",
+    "level": "The model allocates every piece of operator state in its Sub() step, so its expected observation is per subscription; each element-wise/aggregate scenario is built once on a cold test observable and subscribed twice - overlapping (second subscription 3 ticks after the first) and sequentially - and both subscribers must see an allowed observation of the single-subscription scenario shifted to their own subscription instant, with their own source subscription opened and closed at the expected instants. For about 100 further operators (sequential, merging, combining, time-based, windowing; all non-multicasting catalogue operators whose generic callbacks are deterministic) the same cold pipeline object is subscribed twice in sequence and the two subscribers' notification streams and source-subscription intervals, relative to their subscription instants, must be identical - a differential pass, counted separately in the evidence. Sequential operators, sources and callback bridges are additionally checked against their models by C10/C37/C41.",
     "note": "TLC 1.8; cold sources only (a hot source legitimately shows a later subscriber a different suffix); deterministic callbacks",
     "ref": "DESIGN.md 6 C04",
 }
@@ -33,6 +34,9 @@ def run(tier):
                "twice (overlapping by 3 ticks; sequentially); non-trivial = the operator keeps per-subscription state that matters "
                "(output differs from the plain pass-through of the input)")
     ox.replay_groups(ck, groups, variants)
+    # differential part: every non-multicasting catalogue operator with deterministic callbacks, second subscription vs first
+    df = diff_common.resub_pass(ck, ck.seed + 92, 5 if tier == "quick" else 50)
+    ck.note("differential_resubscription_pass", {k: v for k, v in df.items()})
     ck.nontrivial = sum(1 for g in groups if oc.nontrivial(*g))
     ck.note("scenarios", len(groups))
     for g in groups[:: max(1, len(groups) // 4)][:4]:
@@ -41,4 +45,16 @@ def run(tier):
     return ck.finish()
 
 
-replay = ox.generic_replay
+def replay(rec):
+    if rec.get("engine") == "resub-diff":
+        spec, out, skip = diff_common._resub_job(rec["spec"])
+        if out is None:
+            print("replay: skipped", skip)
+            return 2
+        runs, subs, subs2 = out
+        a = [dict(e, vt=e["vt"] - 200) for e in runs[0]]
+        b = [dict(e, vt=e["vt"] - 1500) for e in runs[1]]
+        d = diff_common._first_diff(a, b)
+        print("replay:", d or "both subscriptions saw the same")
+        return 1 if d else 0
+    return ox.generic_replay(rec)
